@@ -61,7 +61,8 @@ func bandwidth(segments []muxerSegment) (int, int) {
 	var durations time.Duration
 
 	for _, seg := range segments {
-		if _, ok := seg.(*muxerGap); !ok {
+		// a segment forced by a parameter change can have a zero duration
+		if _, ok := seg.(*muxerGap); !ok && seg.getDuration() > 0 {
 			bandwidth := 8 * seg.getSize() * uint64(time.Second) / uint64(seg.getDuration())
 			if bandwidth > maxBandwidth {
 				maxBandwidth = bandwidth
@@ -69,6 +70,10 @@ func bandwidth(segments []muxerSegment) (int, int) {
 			sizes += seg.getSize()
 			durations += seg.getDuration()
 		}
+	}
+
+	if durations == 0 {
+		return int(maxBandwidth), 0
 	}
 
 	averageBandwidth := 8 * sizes * uint64(time.Second) / uint64(durations)
